@@ -368,6 +368,11 @@ func (dc *DataContext) SetValue(Vars map[string]reflect.Value, variable string, 
 			return core.SetSingleValue(v, variable, newValue)
 		} else {
 			//in RuleEntity
+			//bind the value, not the storage it was read from: a value read from a struct field or
+			//a slice/array element is addressable and would otherwise keep aliasing that field/element
+			if newValue.IsValid() && newValue.CanAddr() && newValue.CanInterface() {
+				newValue = reflect.ValueOf(newValue.Interface())
+			}
 			dc.lockVars.Lock()
 			Vars[variable] = newValue
 			dc.lockVars.Unlock()
